@@ -56,7 +56,7 @@ def cZ(n):
 def clist(items, ty=None):
     items = list(items)
     if not items:
-        return "(@nil %s)" % ty if ty else "[]"
+        return "(@nil (%s))" % ty if ty else "[]"
     return "[" + "; ".join(items) + "]"
 
 
@@ -209,7 +209,8 @@ def _worker_init(repo):
 def _call(args):
     fn, case = args
     try:
-        return fn(case)
+        # plain data only: what crosses the process boundary is JSON
+        return json.loads(json.dumps(fn(case), default=str))
     except BaseException as e:      # the harness itself must not die on a mutated tree
         return {"__harness_exception__": "%s: %s" % (type(e).__name__, e),
                 "tb": traceback.format_exc()[-1500:]}
